@@ -54,9 +54,38 @@ def parallel_run(fn, ncpu, scheduler):
     return out, dict(nonnested=st.nonnested_waits, nwait=st.nwait, nbatch=st.nbatch, log=list(st.log[:40]))
 
 
+def real_ray_replay(ctx):
+    """thorough tier only: the same comparison on the real ray (own process, the stand-in is not installed there)"""
+    import json
+    import subprocess
+    script = os.path.join(os.path.dirname(os.path.abspath(__file__)), "c12_realray.py")
+    try:
+        p = subprocess.run([sys.executable, script, str(ctx.seed)], capture_output=True, text=True, timeout=900,
+                           env=dict(os.environ, VERIF_REPO=env.REPO))
+        line = [l for l in p.stdout.splitlines() if l.startswith("C12REALRAY ")]
+        res = json.loads(line[-1][len("C12REALRAY "):]) if line else dict(ok=False, error="no output: " + p.stderr[-300:])
+    except subprocess.TimeoutExpired:
+        res = dict(ok=False, error="timeout")
+    if not res.get("ok"):
+        ctx.count("real_ray_unavailable_or_failed_to_start")
+        ctx.sample(dict(real_ray=res.get("error")))
+        return
+    for rec in res["schedules"]:
+        ctx.ev()
+        ctx.count("real_ray_schedules")
+        if rec["set_result_calls"] != 8 or rec["monitor_violations"]:
+            ctx.violation("real_ray:K-point_not_collected_exactly_once", json.dumps(rec)[:500], rec)
+        for key in ("CumDOS", "AHC"):
+            if rec[key] > 1e-10:
+                ctx.violation("real_ray:parallel_result!=serial_result", f"{key}: relative difference {rec[key]:.2e}, order {rec['order']}", rec)
+    ctx.sample(dict(real_ray=res))
+
+
 def case(ctx, rng, idx, state):
     import wannierberri as wb
     from wannierberri.grid import Grid, Path
+    if ctx.thorough and idx == 0:
+        real_ray_replay(ctx)
 
     mode = "path" if idx % 4 == 3 else "grid"
     system, info = runkit.make_run_system(rng, with_group=False, num_wann=int(rng.integers(2, 4)), keys=("Ham",))
@@ -177,6 +206,6 @@ if __name__ == "__main__":
              "step 1-60 %, 0-2 refinement iterations; paths of 5-21 points in batches of 1-7 under random schedules; distinct by (workload, completion "
              "order, extras seed)",
         assumptions=["stand-in scheduler reproduces the wait() semantics measured on ray 2.48 (finished set grows; first num_returns finished refs in "
-                     "input order); real ray is not enumerated", "arguments and results cross the task boundary by value (deep copy)"],
+                     "input order); real ray is not enumerated - the thorough tier replays three delay-forced schedules on the real ray (checks/c12_realray.py)", "arguments and results cross the task boundary by value (deep copy)"],
         required_counters=("schedules", "nonnested_wait_pairs", "exhaustive_cases", "path_schedules", "grid_cases"),
     )
